@@ -341,3 +341,7 @@ fn test_elsewhere_declared_value_in_module() {
         }
     );
 }
+
+#[cfg(librasn_compiler_verif)]
+#[allow(unused_imports)]
+pub(crate) use util::verif_hook as verif_hook_util;
